@@ -923,7 +923,22 @@ func (p *printer) msgLit(scope string, m protoreflect.Message, depth int) string
 		switch {
 		case fd.IsList():
 			l := v.List()
-			if l.Len() > 0 && p.st.chance(0.5) {
+			if l.Len() > 1 && p.st.chance(0.35) {
+				// mixed: the same repeated field named several times, some occurrences single values, some lists
+				for i := 0; i < l.Len(); {
+					k := 1 + p.st.intn(l.Len()-i)
+					if k == 1 && p.st.chance(0.6) {
+						parts = append(parts, one(fd, l.Get(i)))
+					} else {
+						var es []string
+						for j := i; j < i+k; j++ {
+							es = append(es, p.value(scope, fd, l.Get(j), depth+1))
+						}
+						parts = append(parts, name+": ["+strings.Join(es, ", ")+"]")
+					}
+					i += k
+				}
+			} else if l.Len() > 0 && p.st.chance(0.5) {
 				var es []string
 				for i := 0; i < l.Len(); i++ {
 					es = append(es, p.value(scope, fd, l.Get(i), depth+1))
